@@ -105,7 +105,8 @@ class C19:
         if tier != "thorough":
             scripts = rng.sample(scripts, 70)
         for sc in scripts:
-            cases.append({"kind": "command", "script": sc, "max": rng.choice([None, None, 7, 4096])})
+            cases.append({"kind": "command", "script": sc, "max": rng.choice([None, None, 7, 4096]),
+                          "via": rng.choice(["output", "output", "spawn"])})
         return cases
 
     def run_impl(self, cases, workdir):
